@@ -147,6 +147,19 @@ func runCStormInner(s *CStorm) (res cstormResult) {
 			}
 		}(i)
 	}
+	// the application also installs permissions itself (Client.CreatePermission), at the same
+	// instants as everything else - including the Close of the relayed socket
+	wg.Add(1)
+	go func() {
+		defer wg.Done()
+		for r := 0; r < s.Rounds; r++ {
+			time.Sleep(time.Second)
+			if r == s.Rounds/2 {
+				time.Sleep(time.Duration(s.IdleGapS) * time.Second)
+			}
+			_ = cl.CreatePermission(&net.UDPAddr{IP: net.IPv4(10, 2, 0, byte(200+r%8)), Port: 7000})
+		}
+	}()
 	readerDone := make(chan struct{})
 	go func() {
 		defer close(readerDone)
